@@ -79,6 +79,20 @@ func (k *ck) explained(env *build.Env, n []byte, entry string, depth int) bool {
 
 func (k *ck) classifySyntaxDepth(env *build.Env, src []byte, entry string, r synResult, depth int) string {
 	e := r.refErr
+	// (4) D6 first (the one class that is a recorded finding; the others are
+	// repaired defects whose signatures only name a mismatch that came back):
+	// a Name token or the malformed lexeme directly after an ignored run that
+	// contains a multi-byte character. The library re-lexes the tail of such
+	// a name, so where it stops is unrelated to the reference's token and may
+	// coincide with any of the patterns below.
+	if inD6Class(src) {
+		n := neutralise(src)
+		if !bytes.Equal(n, src) {
+			if k.explained(env, n, entry, depth) {
+				return sigD6
+			}
+		}
+	}
 	if r.sig == "syntax:location" && !e.Lexical && e.TokEnd > e.TokStart {
 		if prev, ok := prevToken(src, e); ok {
 			closing := string(src[e.TokStart:e.TokEnd])
@@ -121,16 +135,6 @@ func (k *ck) classifySyntaxDepth(env *build.Env, src []byte, entry string, r syn
 		if i >= 2 && i <= len(toks) && toks[i-1].Kind == "&" && toks[i-2].Kind == syntax.KName && toks[i-2].Value == "implements" {
 			if withinToken(src, r, toks[i-1].Start, toks[i-1].End) {
 				return sigImplementsAmp
-			}
-		}
-	}
-	// (4) D6: a Name token or the malformed lexeme directly after an ignored
-	// run that contains a multi-byte character
-	if inD6Class(src) {
-		n := neutralise(src)
-		if !bytes.Equal(n, src) {
-			if k.explained(env, n, entry, depth) {
-				return sigD6
 			}
 		}
 	}
